@@ -34,16 +34,16 @@ ANCHORS = [
     "ginjax.geometric.functional_geometric_image:pre_tensor_product_expand",
     "ginjax.geometric.geometric_image:GeometricImage.convolve_with",
 ]
-MIN_NONTRIVIAL = {"quick": 80, "thorough": 800}
+MIN_NONTRIVIAL = {"quick": 80, "thorough": 1600}
 WORKERS = {"quick": 8, "thorough": 16}
 TIMEOUT = {"quick": 900, "thorough": 7200}
 
 
 def cases(tier, seed):
-    n = 160 if tier == "quick" else 2400
+    n = 160 if tier == "quick" else 4800
     out = [{"D": 2 if (i % 5) else 3, "mode": "lattice"} for i in range(n)]
     if tier == "thorough":
-        out += [{"D": 2 if (i % 4) else 3, "mode": "basis"} for i in range(240)]
+        out += [{"D": 2 if (i % 4) else 3, "mode": "basis"} for i in range(400)]
     else:
         out += [{"D": 2, "mode": "basis"} for i in range(8)]
     return out
